@@ -28,6 +28,7 @@ import (
 	"verif/harness/internal/fix"
 	"verif/harness/internal/forge"
 	"verif/harness/internal/pbt"
+	"verif/harness/internal/refenc"
 	"verif/harness/internal/spkit"
 	"verif/harness/internal/xgen"
 )
@@ -35,7 +36,7 @@ import (
 // KD is one KeyDescriptor of the registered SP metadata.
 type KD struct {
 	Use  string `json:"use"`  // encryption | signing | "" (omitted)
-	Cert string `json:"cert"` // rsa | rsa2 | ec | empty | blank | notb64 | garbage | none (zero X509Certificate elements)
+	Cert string `json:"cert"` // rsa | rsa2 | rsachain (SP certificate followed by a second one in the same X509Data) | ec | empty | blank | notb64 | garbage | none (zero X509Certificate elements)
 }
 
 // Session strings (each carries a marker).
@@ -57,6 +58,10 @@ type Case struct {
 	Session Session `json:"session,omitempty"`
 	Method  string  `json:"method,omitempty"` // POST | GET | initiated
 
+	// rekey: a sequence of responses served by ONE IdentityProvider value while the registration of
+	// the same entity ID changes its key descriptors in between (Seq: one KD list per response)
+	Seq [][]KD `json:"seq,omitempty"`
+
 	// fresh: a sequence of responses; Rand non-empty = bytes fed to xmlenc.RandReader
 	N    int    `json:"n,omitempty"`
 	Rand []byte `json:"rand,omitempty"`
@@ -70,11 +75,17 @@ type Case struct {
 	// tamper: what an attacker without the IdP key does to / instead of the ciphertext
 	Tamper string `json:"tamper,omitempty"`
 	Pos    int    `json:"pos,omitempty"`
+
+	// pad: a ciphertext an attacker can always make (encrypted to the SP's public certificate)
+	// in block cipher Block, IV plus Blocks blocks, whose LAST decrypted octet is Final
+	Block  string `json:"block,omitempty"` // aes128-cbc | aes192-cbc | aes256-cbc | tripledes-cbc
+	Blocks int    `json:"blocks,omitempty"`
+	Final  int    `json:"final,omitempty"`
 }
 
 func certText(k KD) (string, bool) {
 	switch k.Cert {
-	case "rsa":
+	case "rsa", "rsachain":
 		return fix.Get("sp").CertB64(), true
 	case "rsa2":
 		return "\n  " + fix.Get("sp2").CertB64() + "\n", true
@@ -105,6 +116,9 @@ func metadata(kds []KD, lead ...int) *saml.EntityDescriptor {
 		kd := saml.KeyDescriptor{Use: k.Use}
 		if txt, ok := certText(k); ok {
 			kd.KeyInfo.X509Data.X509Certificates = []saml.X509Certificate{{Data: txt}}
+			if k.Cert == "rsachain" {
+				kd.KeyInfo.X509Data.X509Certificates = append(kd.KeyInfo.X509Data.X509Certificates, saml.X509Certificate{Data: fix.Get("idp2").CertB64()})
+			}
 		}
 		d.KeyDescriptors = append(d.KeyDescriptors, kd)
 	}
@@ -139,6 +153,38 @@ func advertised(kds []KD) (bool, string) {
 }
 
 type spProvider struct{ md *saml.EntityDescriptor }
+
+// swapProvider is a registry whose entry can be replaced between requests.
+type swapProvider struct{ md *saml.EntityDescriptor }
+
+func (p *swapProvider) GetServiceProvider(_ *http.Request, id string) (*saml.EntityDescriptor, error) {
+	if p.md == nil || id != p.md.EntityID {
+		return nil, os.ErrNotExist
+	}
+	return p.md, nil
+}
+
+func checkRekey(c Case) pbt.Result {
+	res := pbt.Result{NonTrivial: true, Classes: []string{"rekey"}}
+	reg := &swapProvider{}
+	idp := newIDP(metadata(nil), c.Session)
+	idp.ServiceProviderProvider = reg
+	for i, kds := range c.Seq {
+		reg.md = metadata(kds)
+		adv, first := advertised(kds)
+		s := c.Session
+		r := emit(idp, c.Method)
+		fail, _, _ := inspect(r, s, adv, first)
+		if fail != "" {
+			res.Err = fmt.Sprintf("response %d of a sequence on one IdentityProvider, after the registration changed to %+v (sequence %+v): %s", i, kds, c.Seq, fail)
+			return res
+		}
+		if !adv && r.xml != nil && i > 0 {
+			res.Classes = append(res.Classes, "rekey:encryption-withdrawn")
+		}
+	}
+	return res
+}
 
 func (p spProvider) GetServiceProvider(_ *http.Request, id string) (*saml.EntityDescriptor, error) {
 	if id != p.md.EntityID {
@@ -280,7 +326,7 @@ func inspect(r reply, s Session, adv bool, first string) (fail string, key, iv [
 		if r.status >= 200 && r.status < 300 {
 			return fmt.Sprintf("status %d without a SAMLResponse form", r.status), nil, nil
 		}
-		if first == "rsa" || first == "rsa2" {
+		if first == "rsa" || first == "rsa2" || first == "rsachain" {
 			return fmt.Sprintf("the first usable encryption certificate is a valid RSA one, yet the IdP answered %d instead of an encrypted response", r.status), nil, nil
 		}
 		return "", nil, nil // an error status is an acceptable outcome for an unusable certificate
@@ -307,6 +353,9 @@ func inspect(r reply, s Session, adv bool, first string) (fail string, key, iv [
 	want := fix.Get("sp")
 	if first == "rsa2" {
 		want = fix.Get("sp2")
+	}
+	if first == "rsachain" {
+		first = "rsa" // the first certificate of the chain is the SP's
 	}
 	if first != "rsa" && first != "rsa2" {
 		return "", nil, nil
@@ -339,7 +388,7 @@ func checkIDP(c Case) pbt.Result {
 	res := pbt.Result{Classes: []string{"idp", "idp:" + c.Method}}
 	defective := false
 	for _, k := range c.KDs {
-		if k.Cert != "rsa" && k.Cert != "rsa2" {
+		if k.Cert != "rsa" && k.Cert != "rsa2" && k.Cert != "rsachain" {
 			defective = true
 		}
 	}
@@ -667,12 +716,83 @@ func checkTamper(c Case) pbt.Result {
 	return res
 }
 
+var blockURIs = map[string]string{"aes128-cbc": refenc.AES128CBC, "aes192-cbc": refenc.AES192CBC, "aes256-cbc": refenc.AES256CBC, "tripledes-cbc": refenc.TripleDESCBC}
+
+// checkPad: malformed (or accidentally well-formed) padding in every CBC cipher must be a
+// validation failure through the SP, never a panic and never an accepted assertion: the
+// plaintext is filler, not a signed assertion.
+func checkPad(c Case) pbt.Result {
+	res := pbt.Result{NonTrivial: true, Classes: []string{"pad", "pad:" + c.Block}}
+	uri := blockURIs[c.Block]
+	spec, ok := refenc.Spec(uri)
+	if !ok || c.Blocks < 1 || c.Blocks > 4 {
+		return pbt.Result{Skip: true}
+	}
+	st := &stream{x: c.Seed ^ 0xabc}
+	key, iv := st.bytes(spec.KeyLen), st.bytes(spec.IVLen)
+	plain := st.bytes(spec.Block * c.Blocks)
+	plain[len(plain)-1] = byte(c.Final)
+	value, err := refenc.EncryptBlockRaw(uri, key, iv, plain)
+	if err != nil {
+		return pbt.Result{Err: "harness: " + err.Error()}
+	}
+	// a well-formed EncryptedAssertion for other content, whose cipher value is then replaced
+	ea, err := refenc.EncryptedAssertion([]byte("<x/>"), fix.Get("sp").Cert, refenc.Options{BlockAlg: uri, KeyTransport: refenc.RSAOAEPMGF1P, Digest: refenc.DigestSHA1, IV: iv, ContentKey: key, Rand: st, Sibling: c.EncLay == "sibling"})
+	if err != nil {
+		return pbt.Result{Err: "harness: " + err.Error()}
+	}
+	cv := ea.FindElement("./EncryptedData/CipherData/CipherValue")
+	if cv == nil {
+		return pbt.Result{Err: "harness: no CipherValue"}
+	}
+	cv.SetText(base64.StdEncoding.EncodeToString(value))
+	r := spkit.Baseline(fix.Epoch, "id-req", "")
+	r.Assertions = nil
+	el, err := forge.ResponseElement(&r)
+	if err != nil {
+		return pbt.Result{Err: "harness: " + err.Error()}
+	}
+	el.AddChild(ea)
+	o := spkit.ParseXML(spkit.NewSP(spkit.Config{Trust: "meta1"}), forge.Bytes(el), []string{"id-req"}, spkit.SPACS)
+	if o.Panic != "" {
+		res.Err = fmt.Sprintf("%s ciphertext of IV + %d block(s) with final decrypted octet %d: panic: %s", c.Block, c.Blocks, c.Final, o.Panic)
+		return res
+	}
+	if o.Accepted() {
+		res.Err = fmt.Sprintf("%s ciphertext of random filler was accepted: %s", c.Block, o.Describe())
+	}
+	return res
+}
+
+type stream struct{ x uint64 }
+
+func (s *stream) bytes(n int) []byte {
+	b := make([]byte, n)
+	_, _ = s.Read(b)
+	return b
+}
+
+func (s *stream) Read(p []byte) (int, error) {
+	for i := range p {
+		s.x += 0x9e3779b97f4a7c15
+		z := s.x
+		z = (z ^ (z >> 30)) * 0xbf58476d1ce4e5b9
+		z = (z ^ (z >> 27)) * 0x94d049bb133111eb
+		p[i] = byte((z ^ (z >> 31)) >> 16)
+	}
+	return len(p), nil
+}
+
 func check(c Case) pbt.Result {
 	switch c.Kind {
+	case "pad":
+		return checkPad(c)
 	case "idp":
 		return checkIDP(c)
 	case "fresh":
 		return checkFresh(c)
+	case "rekey":
+		return checkRekey(c)
 	case "spmeta":
 		return checkSPMeta(c)
 	case "tamper":
@@ -683,7 +803,7 @@ func check(c Case) pbt.Result {
 
 // ---------------------------------------------------------------- generators
 
-var certClasses = []string{"rsa", "rsa", "rsa2", "ec", "empty", "blank", "notb64", "garbage", "none"}
+var certClasses = []string{"rsa", "rsa", "rsa2", "rsachain", "ec", "empty", "blank", "notb64", "garbage", "none"}
 var tampers = []string{"none", "encrypted-to-other-key", "attacker-encrypts-unsigned", "attacker-encrypts-unsigned-fake-signature-foreign-ns", "attacker-encrypts-unsigned-fake-signature-no-ns", "attacker-encrypts-unsigned-empty-dsig-signature", "attacker-encrypts-own-signed", "attacker-encrypts-own-signed-claims-cert", "flip-data-byte", "flip-data-byte", "truncate-data", "flip-key-byte", "empty-data", "swap-blocks"}
 
 func genSession(t *rapid.T) Session {
@@ -710,7 +830,21 @@ func sanitize(s Session) Session {
 }
 
 func gen(t *rapid.T) Case {
-	switch rapid.IntRange(0, 9).Draw(t, "kind") {
+	switch rapid.IntRange(0, 11).Draw(t, "kind") {
+	case 11:
+		return Case{Kind: "pad", Block: rapid.SampledFrom([]string{"aes128-cbc", "aes192-cbc", "aes256-cbc", "tripledes-cbc"}).Draw(t, "block"), Blocks: rapid.IntRange(1, 4).Draw(t, "blocks"),
+			Final: rapid.IntRange(0, 255).Draw(t, "final"), Seed: rapid.Uint64Range(0, 1<<40).Draw(t, "seed"), EncLay: rapid.SampledFrom([]string{"", "sibling"}).Draw(t, "enclay")}
+	case 10:
+		c := Case{Kind: "rekey", Session: sanitize(genSession(t)), Method: rapid.SampledFrom([]string{"POST", "GET", "initiated"}).Draw(t, "method")}
+		n := rapid.IntRange(2, 4).Draw(t, "nseq")
+		for i := 0; i < n; i++ {
+			var kds []KD
+			for j := rapid.IntRange(0, 2).Draw(t, "nkd"); j > 0; j-- {
+				kds = append(kds, KD{Use: rapid.SampledFrom([]string{"encryption", "encryption", ""}).Draw(t, "use"), Cert: rapid.SampledFrom([]string{"rsa", "rsa2", "rsachain", "ec", "empty"}).Draw(t, "cert")})
+			}
+			c.Seq = append(c.Seq, kds)
+		}
+		return c
 	case 0, 1, 2, 3:
 		n := rapid.IntRange(0, 4).Draw(t, "nkd")
 		c := Case{Kind: "idp", Session: sanitize(genSession(t)), Method: rapid.SampledFrom([]string{"POST", "GET", "initiated"}).Draw(t, "method"), Lead: rapid.SampledFrom([]int{0, 0, 1, 2}).Draw(t, "lead")}
@@ -737,7 +871,7 @@ func gen(t *rapid.T) Case {
 // restricted to 2 in quick, with a fixed marker session, through POST.
 func enumLayouts(tier string, emit func(Case)) {
 	uses := []string{"encryption", "", "signing"}
-	certs := []string{"rsa", "ec", "empty", "blank", "notb64", "garbage", "none"}
+	certs := []string{"rsa", "rsachain", "ec", "empty", "blank", "notb64", "garbage", "none"}
 	var all []KD
 	for _, u := range uses {
 		for _, c := range certs {
@@ -758,6 +892,38 @@ func enumLayouts(tier string, emit func(Case)) {
 				for _, c := range all {
 					emit(Case{Kind: "idp", Session: s, Method: "GET", KDs: []KD{a, b, c}})
 				}
+			}
+		}
+	}
+}
+
+// enumRekey: every ordered pair / triple of registrations {RSA key A, RSA key B, no key} of one entity ID
+// served by one IdentityProvider value, through each flow.
+func enumRekey(_ string, emit func(Case)) {
+	s := Session{NameID: "mnameid0123456789", Email: "memail0123456789@example.com", Name: "mname0123456789", Index: "idx0123456789", Custom: "mcustom0123456789"}
+	regs := [][]KD{{{Use: "encryption", Cert: "rsa"}}, {{Use: "encryption", Cert: "rsa2"}}, {}, {{Use: "", Cert: "rsa2"}}}
+	for _, m := range []string{"POST", "initiated"} {
+		for _, a := range regs {
+			for _, b := range regs {
+				emit(Case{Kind: "rekey", Session: s, Method: m, Seq: [][]KD{a, b}})
+				for _, c := range regs {
+					emit(Case{Kind: "rekey", Session: s, Method: m, Seq: [][]KD{a, b, c}})
+				}
+			}
+		}
+	}
+}
+
+// enumPad: every CBC cipher x IV + 1..2 blocks x final decrypted octet 0..40 and the high ones.
+func enumPad(_ string, emit func(Case)) {
+	for _, b := range []string{"aes128-cbc", "aes192-cbc", "aes256-cbc", "tripledes-cbc"} {
+		for blocks := 1; blocks <= 2; blocks++ {
+			finals := []int{128, 200, 254, 255}
+			for f := 0; f <= 40; f++ {
+				finals = append(finals, f)
+			}
+			for _, f := range finals {
+				emit(Case{Kind: "pad", Block: b, Blocks: blocks, Final: f, Seed: 9})
 			}
 		}
 	}
@@ -802,7 +968,7 @@ var prop = &pbt.Prop[Case]{
 	Gen:   gen,
 	Check: check,
 	Reset: fix.Reset,
-	Enums: []pbt.Enum[Case]{{Name: "key-descriptor-layouts", Each: enumLayouts}, {Name: "sp-defects-and-tampering", Each: enumSP}},
+	Enums: []pbt.Enum[Case]{{Name: "key-descriptor-layouts", Each: enumLayouts}, {Name: "sp-defects-and-tampering", Each: enumSP}, {Name: "re-registration-sequences", Each: enumRekey}, {Name: "cbc-padding-through-the-sp", Each: enumPad}},
 	Assumptions: []string{
 		"CR is kept out of session strings (separate finding of C07)",
 		"RSA-OAEP randomness drawn from the recording source may include extra bytes (Go's MaybeReadByte); membership of key and IV among the recorded reads is what is checked",
